@@ -129,58 +129,22 @@ def plumbing(module, probe, **_):
 
 
 # ---------------------------------------------------------------------------------------------------------------------
-# proof tier: counter-models of the decoder obligations
+# proof tier: counter-models of the obligations on ModuleConfiguration.parse({key: x}) for an integer x
 
 
-def _ints(model):
-  return {k: int(str(v)) for k, v in (model or {}).items() if str(v).lstrip("-").isdigit()}
-
-
-def decoder_int(decoder, model, obligation="", **_):
-  """re-run an integer decoder on the integer of the counter-model (and its neighbours)"""
-  from specs import ttcli as S
-  m = _ints(model)
+def parse_int(module, key, model, obligation="", **_):
+  """the integer of the counter-model (and a few neighbours / typical values) through the real parse"""
+  m = {k: int(str(v)) for k, v in (model or {}).items() if str(v).lstrip("-").isdigit()}
   x0 = m.get("x", 0)
-  if decoder == "safe_area":
-    from ttconv.filters.doc.lcd import _safe_area_decoder as f
-    module, key = "lcd", "safe_area"
-  elif decoder == "max_row_count":
-    from ttconv.stl.config import _decode_max_row_count as f
-    module, key = "stl_reader", "max_row_count"
-  else:
-    return False, f"unknown decoder {decoder}"
-  for x in [x0] + [x0 + d for d in (-1, 1)] + [-1, 31]:
-    c = S.classify(module, key, x)
-    try:
-      got = ("ok", f(x))
-    except ValueError as e:
-      got = ("raise", str(e))
-    except Exception as e:  # pylint: disable=broad-except
-      return True, f"{f.__name__}({x}) raises {type(e).__name__}: {e} (only ValueError is a documented rejection)"
-    if c[0] == "valid" and got != ("ok", x):
-      return True, f"{f.__name__}({x}) -> {got}; documented value, required to be returned unchanged"
-    if c[0] == "invalid" and got[0] == "ok":
-      return True, f"{f.__name__}({x}) returns {got[1]!r}; outside the documented range, required: ValueError"
-  return False, f"{f.__name__} behaves as documented at {x0} and its neighbours"
-
-
-def reject_non_string(decoder, model, obligation="", **_):
-  m = _ints(model)
-  x = m.get("x", 0)
-  if decoder == "text_align":
-    from ttconv.scc.config import TextAlignment
-    f = TextAlignment.from_value
-  elif decoder == "time_format":
-    from ttconv.imsc.config import parse_time_expression_syntax as f
-  elif decoder == "fps":
-    from ttconv.imsc.config import IMSCWriterConfiguration
-    f = IMSCWriterConfiguration.FractionDecoder()
-  elif decoder == "color":
-    from ttconv.filters.doc.lcd import _color_decoder as f
-  else:
-    return False, f"unknown decoder {decoder}"
-  try:
-    got = f(x)
-  except Exception as e:  # pylint: disable=broad-except
-    return False, f"{decoder} decoder rejects the integer {x} with {type(e).__name__}"
-  return True, f"{decoder} decoder accepts the integer {x} and returns {got!r}; only strings are documented"
+  texts = []
+  hit = False
+  for x in dict.fromkeys([x0, x0 - 1, x0 + 1, -1, 0, 1, 2, 30, 31]):
+    r, t = config_value(module, key, json.dumps(x))
+    if r:
+      hit = True
+      texts.append(t)
+    elif x == x0:
+      texts.append(t)
+    if hit and len(texts) >= 2:
+      break
+  return hit, "\n".join(texts)
